@@ -17,6 +17,7 @@ import (
 	"github.com/criyle/go-sandbox/pkg/mount"
 	"github.com/criyle/go-sandbox/runner"
 	"github.com/criyle/go-sandbox/zverif/vcore"
+	"golang.org/x/sys/unix"
 )
 
 // C05: FS confinement. The probe looks around from inside the new root; the harness reads the
@@ -136,7 +137,7 @@ func c05Run(c *vcore.Ctx) *vcore.Violation {
 
 	// script run inside
 	probeIn := "/probe/" + filepath.Base(probePath)
-	script := []string{"ls", "/", "mods", "/", "ls", "/old_root", "statfs", "/"}
+	script := []string{"fds", "24", "ls", "/", "mods", "/", "ls", "/old_root", "statfs", "/"} // (descriptors first, before the script opens any itself)
 	for _, e := range ents {
 		t := "/" + e.target
 		switch e.kind {
@@ -155,6 +156,25 @@ func c05Run(c *vcore.Ctx) *vcore.Violation {
 		}
 	}
 	script = append(script, "sys", "80", "s:/..", "0", "0", "0", "0", "0", "ls", ".", "cat", secret, "exit", "0")
+	// the hosting process may hold descriptors it never marked close-on-exec (inherited from a service
+	// manager, opened by a C library): a directory of the host, a file, a pipe. None of them may reach the
+	// program: a directory descriptor is a way out of any root
+	var heldFds []int
+	// (in the container: there the library itself marks everything its init inherited close-on-exec; with a
+	// bare forkexec launch the caller's own descriptors are the caller's business)
+	if impl == "container" && src.Bool(1, 2, "host_holds_inheritable_descriptors") {
+		for _, p := range []string{base, secret} {
+			if fd, err := unix.Open(p, unix.O_RDONLY, 0); err == nil { // (no O_CLOEXEC)
+				heldFds = append(heldFds, fd)
+			}
+		}
+		c.Event("inheritable_host_descriptors")
+		defer func() {
+			for _, fd := range heldFds {
+				unix.Close(fd)
+			}
+		}()
+	}
 
 	var res runner.Result
 	var out *kOut
@@ -207,6 +227,15 @@ func c05Run(c *vcore.Ctx) *vcore.Violation {
 		return vcore.Violate(prop, "launch_failed", impl, "the configured root could not be entered: %s %s (mounts: %s)", statusName(res.Status), res.Error, strings.Join(desc, "; "))
 	}
 	lines := out.Lines()
+	// 0. no descriptor beyond the three standard streams is open in the program
+	for _, l := range out.find("fd ") {
+		f := strings.Fields(l)
+		if len(f) >= 3 && f[2] != "closed" {
+			if fd, _ := strconv.Atoi(f[1]); fd > 2 {
+				return vcore.Violate(prop, "host_descriptor_reachable", impl, "descriptor %d is open in the program (%s) although none was passed (descriptors the hosting process held without close-on-exec: %v): the host is reachable through it", fd, l, heldFds)
+			}
+		}
+	}
 	// 1. the root lists exactly the configured top-level names
 	want := map[string]bool{"probe": true}
 	if impl == "container" {
